@@ -326,11 +326,12 @@ def kani_run_package(scratch, cwd, package, harnesses, tier, logdir, tag, extra_
     cmd = ["cargo", "kani"]
     if package:
         cmd += ["-p", package]
-    cmd += KANI_FLAGS + (extra_flags or [])
+    cmd += KANI_FLAGS
     for h in harnesses:
         cmd += ["--harness", h["name"]]
     cmd += ["-j", str(min(JOBS, max(1, len(harnesses)))), "--output-format", "terse",
             "--export-json", jpath, "--harness-timeout", "%ds" % tmo]
+    cmd += (extra_flags or [])
     t0 = time.time()
     logfile = os.path.join(logdir, "kani-%s.log" % tag)
     # build (~60 s cold) + verification; the wall limit covers both
@@ -522,12 +523,14 @@ def run_kani_units(scratch, units, tier, res, logdir):
     by_pkg = {}
     for u in units:
         if u["engine"] == "kani":
-            by_pkg.setdefault(u["package"], []).append(u)
-    for pkg, us in by_pkg.items():
+            by_pkg.setdefault((u["package"], tuple(u.get("cbmc_args", []))), []).append(u)
+    for (pkg, cargs), us in by_pkg.items():
         hs = [h for u in us for h in u["harness"]]
         if not hs:
             continue
-        data, out, note, wall, cmd = kani_run_package(scratch, scratch.src, pkg, hs, tier, logdir, pkg)
+        extra = (["--cbmc-args"] + list(cargs)) if cargs else None
+        tag = pkg + ("-" + hashlib.sha256(" ".join(cargs).encode()).hexdigest()[:6] if cargs else "")
+        data, out, note, wall, cmd = kani_run_package(scratch, scratch.src, pkg, hs, tier, logdir, tag, extra)
         res.cmds.append(cmd)
         kani_collect(data, out, note, us, hs, res, pkg)
         log("  kani -p %s: %d harnesses, wall %.0fs%s" % (pkg, len(hs), wall, " (" + note + ")" if note else ""))
@@ -678,8 +681,9 @@ def run_standalone_units(scratch, units, tier, res, logdir, files, anchors, extr
         extracted[u["id"]] = text
         u["_cwd_rel"] = os.path.relpath(cdir, scratch.src)
         u.setdefault("modname", "verif_" + u["id"].replace(".", "_").lower())
+        extra = (["--cbmc-args"] + list(u["cbmc_args"])) if u.get("cbmc_args") else None
         data, out, note, wall, cmd = kani_run_package(scratch, cdir, None, u["harness"], tier, logdir,
-                                                      u["id"].replace(".", "_"))
+                                                      u["id"].replace(".", "_"), extra)
         res.cmds.append(cmd)
         kani_collect(data, out, note, [u], u["harness"], res, u["id"])
         log("  kani standalone %s: %d harnesses, wall %.0fs%s" % (u["id"], len(u["harness"]), wall, " (" + note + ")" if note else ""))
